@@ -88,3 +88,53 @@ def wellFormed : Expr → Bool
 end
 
 end GoLucene
+
+namespace GoLucene
+
+/-! ### C11: erasing the default-field scoping -/
+
+def isDfCol (df : Bytes) : Node → Bool
+  | .expr (.mk (.prim (.col c)) .literal .nil _ _) => c == df
+  | _ => false
+
+mutual
+/-- erase every `df:` scoping: `Equals(Column df, x)` becomes `x` -/
+def eraseNode (df : Bytes) : Node → Node
+  | .expr e => .expr (eraseDf df e)
+  | .list es => .list (eraseList df es)
+  | .bound mn mx incl => .bound (eraseNode df mn) (eraseNode df mx) incl
+  | n => n
+def eraseDf (df : Bytes) : Expr → Expr
+  | .mk l o r p d =>
+    if o = .equals && isDfCol df l then
+      (match r with
+       | .expr x => eraseDf df x
+       | _ => .mk l o r p d)
+    else .mk (eraseNode df l) o (eraseNode df r) p d
+def eraseList (df : Bytes) : ExprList → ExprList
+  | .nil => .nil
+  | .cons e t => .cons (eraseDf df e) (eraseList df t)
+end
+
+def isBareTermNode : Node → Bool
+  | .expr (.mk (.prim _) o _ _ _) => o.isLeafOp
+  | _ => false
+
+mutual
+/-- no bare term stands alone as an operand of AND, OR, NOT, +, -, ~, ^ -/
+def noBareNode : Node → Bool
+  | .expr e => noBareOperand e
+  | _ => true
+def noBareOperand : Expr → Bool
+  | .mk l o r _ _ =>
+    match o with
+    | .and | .or => !isBareTermNode l && !isBareTermNode r && noBareNode l && noBareNode r
+    | .not | .must | .mustNot | .fuzzy | .boost => !isBareTermNode l && noBareNode l
+    | .equals | .greater | .less | .greaterEq | .lessEq => noBareNode r
+    | _ => true
+end
+
+/-- … nor as the whole query -/
+def noBareTerm (e : Expr) : Bool := !isBareTermNode (.expr e) && noBareOperand e
+
+end GoLucene
